@@ -206,7 +206,7 @@ PROPS = {'C18': {'title': 'Inflights window is a bounded FIFO under resizing',
                          'contract over a byte-keyed view of its table: the five std HashMap operations with Vec<u8> / &[u8] keys are specified helpers '
                          '(verif_ri_*)',
                          'specified helpers for std / protobuf calls (R9) and the three cut texts (R10) listed in the evidence file'],
-         'cone': {'S': ['raft', 'raw_node', 'memstorage']},
+         'cone': {'S': ['storage_trait', 'raft', 'raw_node', 'memstorage']},
          'bounded': ['mon_c06: every message checked at release time against the durable hard state (sync + async readies)',
                      'mon_c06: crashes - the node restarts from a durable image holding exactly the Readys reported persisted plus possibly a prefix of the '
                      'oldest unfinished write; after a restart the term is not below any released message and the vote is the one told']},
